@@ -71,19 +71,32 @@ def execute(h, sc):
     return res
 
 
+# Set by any worker that met a violation which no open known finding could explain (fork-shared).
+# Once it is set and the batch is older than the soft deadline, the remaining runs are skipped: the
+# verdict is already "violated", and code that makes every run slow (a dispatch that never ends, a
+# prompt that never gives up - each stopped by its cap) must not push the batch into the watchdog.
+_FOUND = multiprocessing.Value("i", 0)
+SOFT_DEADLINE = {"quick": 100, "thorough": 2400}
+
+
 def _work(args):
-    prop, tier, verif_seed, start, stop, audit_mod, wall = args
+    prop, tier, verif_seed, start, stop, audit_mod, wall, t_batch = args
     faulthandler.dump_traceback_later(wall, exit=True)
     try:
+        open_sigs = set((e.get("oracle"), e.get("where")) for e in findings.load()
+                        if e.get("property") == prop and e.get("status") == "open")
         h = load(prop)
         if hasattr(h, "setup"):
             h.setup()
         agg = {
             "evaluations": 0, "nontrivial": 0, "inconclusive": 0, "steps": 0, "sim_us": 0,
             "faults": {}, "probes": {}, "digests": set(), "states": set(), "samples": [],
-            "violations": {}, "audit": {}, "errors": [], "n_violations": 0,
+            "violations": {}, "audit": {}, "errors": [], "n_violations": 0, "skipped": 0,
         }
         for i in range(start, stop):
+            if _FOUND.value and _real_time.time() - t_batch > SOFT_DEADLINE[tier]:
+                agg["skipped"] = stop - i
+                break
             try:
                 scs = make_scenarios(h, prop, tier, verif_seed, i)
             except Exception:
@@ -118,6 +131,8 @@ def _work(args):
                 for v in res.violations:
                     agg["n_violations"] += 1
                     sig = signature(v)
+                    if sig not in open_sigs and not _FOUND.value:
+                        _FOUND.value = 1
                     cur = agg["violations"].get(sig)
                     if cur is None:
                         agg["violations"][sig] = {"cands": [(i, sc, v)], "count": 1}
@@ -131,7 +146,7 @@ def _work(args):
 
 
 def _merge(total, part):
-    for k in ("evaluations", "nontrivial", "inconclusive", "steps", "sim_us", "n_violations"):
+    for k in ("evaluations", "nontrivial", "inconclusive", "steps", "sim_us", "n_violations", "skipped"):
         total[k] = total.get(k, 0) + part[k]
     for k in ("faults", "probes"):
         d = total.setdefault(k, {})
@@ -254,9 +269,11 @@ def write_evidence(prop, h, tier, verif_seed, total, wall, audit, known_hit, n_u
         "evaluations": total.get("evaluations", 0),
         "distinct_nontrivial": len(total.get("digests", ())),
         "rule": info.get("rule", "") + (" [distinct_nontrivial is a lower bound: digest set capped at %d]" % DIGEST_CAP
-                                          if total.get("digests_capped") else ""),
+                                          if total.get("digests_capped") else "")
+                + (" [%d runs skipped after the soft deadline: a violation had already been found]" % total["skipped"]
+                   if total.get("skipped") else ""),
         "samples": samples,
-        "seeded_runs": runs,
+        "seeded_runs": runs - total.get("skipped", 0),
         "seeds": {"verif_seed": verif_seed, "first_run_index": 0, "last_run_index": runs - 1},
         "runs_per_hour": int(total.get("evaluations", 0) / hours),
         "operations_executed": total.get("steps", 0),
@@ -304,7 +321,8 @@ def run_check(prop, tier, verif_seed, runs=None, workers=None):
     wall = {"quick": 420, "thorough": 7200}[tier]
 
     chunk = max(1, min(2000, runs // (workers * 8) or 1))
-    tasks = [(prop, tier, verif_seed, s, min(runs, s + chunk), audit_mod, wall)
+    _FOUND.value = 0
+    tasks = [(prop, tier, verif_seed, s, min(runs, s + chunk), audit_mod, wall, t0)
              for s in range(0, runs, chunk)]
     total = {}
     ctx = multiprocessing.get_context("fork")
